@@ -148,6 +148,51 @@ def grammar_doc(rng, nlines=None) -> str:
     return doc
 
 
+# ---- tab-rich structured documents --------------------------------------------------------
+Q_SPELL = [">", "> ", ">\t", " > ", ">  ", ">\t\t", " >\t", "  >", ">   ", "   > "]
+M_SPELL = ["-", "*", "+", "1.", "2)", "10."]
+AFTER_M = [" ", "\t", "  ", " \t", "\t\t", "   ", "\t  ", "    ", "\t ", "     "]
+UWS = ["\xa0", "\x0c", "\x0b", "\u2003", "\u3000", "\x1c", "\x85", "\u2028"]
+T_LEAVES = ["foo", "```", "~~~", "```\tpy", "# title", "#\ttitle", "***", "- - -", "    code", "\tcode", "\t\tcode", "  \tcode", "bar", "<div>", "[r]: /u",
+            "===", "---", "a|b", "-|-", "  text", " \ttext", "1. x", "-\ty", "> q", ">\tq", "", "", "\\", "*em*\t_x_", "`c\td`"]
+
+
+def tabbed_doc(rng) -> str:
+    """Nested containers whose markers are followed / separated by tabs, per-line spelling variety of the quote
+    prefix, lazy and interrupting lines, indentation spelled with tabs, Unicode blanks where ASCII blanks matter."""
+    depth = rng.randrange(1, 4)
+    kinds = [rng.choice("qql") for _ in range(depth)]        # q = quote, l = list item
+    markers = [rng.choice(M_SPELL) for _ in kinds]
+    lines = []
+    n = rng.randrange(2, 7)
+    widths = []
+    for i in range(n):
+        r = rng.random()
+        if i and r < 0.12:
+            lines.append(rng.choice(T_LEAVES))               # lazy / interrupting line at column 0
+            continue
+        if i and r < 0.2:
+            lines.append(rng.choice(["", " ", "\t", ">", "> "]))
+            continue
+        pre = ""
+        first = (i == 0) or rng.random() < 0.25                # (re)start the list items on this line
+        for k, m in zip(kinds, markers):
+            if k == "q":
+                pre += rng.choice(Q_SPELL)
+            elif first:
+                pre += m + rng.choice(AFTER_M)
+            else:
+                pre += rng.choice([" " * (len(m) + 1), "\t", " " * (len(m) + 2), " " * len(m) + "\t", "  "])
+        leaf = rng.choice(T_LEAVES)
+        if rng.random() < 0.12:
+            leaf = rng.choice(UWS) + leaf
+        if rng.random() < 0.08:
+            pre = pre.replace(" ", rng.choice(UWS), 1)
+        lines.append(pre + rng.choice(["", "", " ", "\t", "  "]) + leaf)
+    doc = "\n".join(lines)
+    return doc + ("\n" if rng.random() < 0.85 else "")
+
+
 def mutate(rng, s: str) -> str:
     if not s:
         return s
@@ -178,8 +223,10 @@ def random_doc(rng) -> str:
         return rng.choice(seeds())
     if r < 0.55:
         return mutate(rng, rng.choice(seeds()))
-    if r < 0.92:
+    if r < 0.80:
         return grammar_doc(rng)
+    if r < 0.92:
+        return tabbed_doc(rng)
     # malformed stream: arbitrary code points (no surrogates)
     n = rng.randrange(0, 30)
     cs = []
